@@ -258,6 +258,7 @@ def check_pair(case, col: Collector) -> dict:
             f"unexpected {list((act - exp_counter).keys())[:3]}")
         return stats
     # ---- derivation bijection ---------------------------------------------------------
+    HEIGHT = case.get("height", 3)
     d1 = derivations(h1, h1.start, HEIGHT)
     d2 = derivations(h2, h2.start, HEIGHT)
     dc = derivations(c, c.start, HEIGHT)
@@ -323,7 +324,7 @@ def regular_cases(thorough: bool) -> List[dict]:
     cases = []
     for a in g1s:
         for b in g2s:
-            cases.append({"kind": "pair", "tags": [],
+            cases.append({"kind": "pair", "tags": [], "height": 4 if thorough else 3,
                           "g1": {"start": "SN:", "rules": [p1[k] for k in a]},
                           "g2": {"start": "TN:", "rules": [p2[k] for k in b]}})
     return cases
@@ -473,7 +474,7 @@ def run_bounded(ctx: Ctx) -> Report:
                    "skeletons present in one grammar only" if gname == "regular" else
                    "hand-written pairs: the name clashes of the text, labels already named like pairs, genuine terminal conflicts, same terminal "
                    "edge id in both grammars, self-conjunction, mixed implicit/explicit edge ids, shared implicit ids")
-                  + f"; derivations of height <= {HEIGHT}",
+                  + f"; derivations of height <= {cases[0].get('height', 3)}",
             cases=len(cases), distinct_nontrivial=nontrivial,
             rule="product of rule subsets; non-trivial = at least 2 conjoined rules and at least 2 paired derivations; "
                  f"total conjoined rules {sum(s.get('rules', 0) for s in stats)}, paired derivations {sum(s.get('derivs', 0) for s in stats)}",
